@@ -228,10 +228,12 @@ class PtBackend(Backend):
             return pt.eye(c["n"], c.get("m"), c.get("k", 0), DT[c["dtype"]])
         if op == "arange":
             return pt.arange(*c["args"], dtype=DT[c["dtype"]] if c.get("dtype") else None)
-        if op == "zeros_like":
-            return pt.zeros_like(g(c["a"]))
-        if op == "ones_like":
-            return pt.ones_like(g(c["a"]))
+        if op in ("zeros_like", "ones_like"):
+            f = pt.zeros_like if op == "zeros_like" else pt.ones_like
+            if c.get("dtype"):                  # dtype= overrides the argument's
+                # (an np.dtype INSTANCE, as the parameter is annotated)
+                return f(g(c["a"]), dtype=np.dtype(DT[c["dtype"]]))
+            return f(g(c["a"]))
         if op == "lpcall":
             # one Call object per "cid": several results of one call share it
             from pytato.loopy import call_loopy
@@ -337,10 +339,11 @@ class NpBackend(Backend):
             return np.eye(c["n"], c.get("m"), c.get("k", 0), DT[c["dtype"]])
         if op == "arange":
             return np.arange(*c["args"], dtype=DT[c["dtype"]] if c.get("dtype") else None)
-        if op == "zeros_like":
-            return np.zeros_like(g(c["a"]))
-        if op == "ones_like":
-            return np.ones_like(g(c["a"]))
+        if op in ("zeros_like", "ones_like"):
+            f = np.zeros_like if op == "zeros_like" else np.ones_like
+            if c.get("dtype"):
+                return f(g(c["a"]), dtype=DT[c["dtype"]])
+            return f(g(c["a"]))
         if op in ("tag", "tag_axis"):
             return g(c["a"])
         if op == "lpcall":
